@@ -364,7 +364,11 @@ func c05Body(c *core.Ctx) {
 			if spec.Stop != nil {
 				at = spec.Stop.At
 			}
-			c.Violate(idx, "stop-dropped:at="+at+":kind=http", "POST /stop on the run's socket was answered 200 but 20 s later the stop had not been acted upon (no step signalled, the run not marked canceled)", map[string]any{"case": spec, "trace": TraceSig(out)})
+			kind := ""
+			if spec.Stop != nil {
+				kind = spec.Stop.Kind
+			}
+			c.Violate(idx, "stop-dropped:at="+at+":kind="+kind, "a stop request (POST /stop answered 200, or SIGTERM delivered to the agent) had not been acted upon 20 s later: no step signalled, the run not marked canceled", map[string]any{"case": spec, "trace": TraceSig(out)})
 			return
 		}
 		if out.Inconclusive != "" {
